@@ -16,6 +16,7 @@ package snapshot
 //     observer filter callback); the reader count returns to zero; no panic.
 
 import (
+	"hash/fnv"
 	"bytes"
 	"errors"
 	"fmt"
@@ -320,13 +321,17 @@ func TestVerifC11(t *testing.T) {
 	defer rep.Write()
 	r := vfNewRng(11)
 	var allOps, allImpl [][]string
-	nA := vfScale(120, 3000)
+	nA := vfScale(120, 7000)
 	for i := 0; i < nA; i++ {
 		ops, out := c11SeqA(t, rep, r, 30+r.Intn(vfScale(91, 200)))
 		allOps = append(allOps, ops)
 		allImpl = append(allImpl, out)
 		j := strings.Join(out, " ")
-		rep.Case(strings.Join(ops, ";"), strings.Contains(j, "forced") && strings.Contains(j, "noop") && strings.Contains(j, "conflict"))
+		if len(allOps) >= 2000 { // compare in chunks (memory, thorough tier)
+			rep.vfCompareSegments("streamer", allOps, allImpl)
+			allOps, allImpl = nil, nil
+		}
+		rep.Case(c11Key(ops), strings.Contains(j, "forced") && strings.Contains(j, "noop") && strings.Contains(j, "conflict"))
 		for _, k := range []string{"forced", "rearmed", "released", "noop", "conflict", "timeout-error"} {
 			rep.CountN("A:"+k, strings.Count(j, k))
 		}
@@ -336,7 +341,7 @@ func TestVerifC11(t *testing.T) {
 	}
 
 	// ---- B -------------------------------------------------------------------------
-	nB := vfScale(6, 120)
+	nB := vfScale(6, 400)
 	for run := 0; run < nB; run++ {
 		s := c11NewStore(t)
 		s.SetReadTimeout(4 * time.Millisecond)
@@ -517,4 +522,14 @@ func TestVerifC11(t *testing.T) {
 		rep.CountN("B:explicit-reaps-succeeded", int(explicitReaps.Load()))
 	}
 	rep.vfCompareSegments("streamer", allOps, allImpl)
+}
+
+// c11Key identifies an op sequence by a 64-bit hash (keeps the distinct-case set small).
+func c11Key(ops []string) string {
+	h := fnv.New64a()
+	for _, o := range ops {
+		h.Write([]byte(o))
+		h.Write([]byte{'\n'})
+	}
+	return fmt.Sprintf("%016x", h.Sum64())
 }
